@@ -14,6 +14,10 @@ static double now(void) { struct timespec ts; clock_gettime(CLOCK_MONOTONIC, &ts
 static double T0;
 void ptgh_event(int rank, int kind, long a, long b)
 {
+    /* optional: make one rank late (it reaches parsec_context_start PTG_REAL_DELAY_MS after the others),
+     * to expose protocols that assume every peer keeps serving until everybody is done */
+    if (kind == PE_ACTION_BEGIN && b == PA_START && getenv("PTG_REAL_DELAY_RANK") && atoi(getenv("PTG_REAL_DELAY_RANK")) == rank)
+        usleep(1000 * (getenv("PTG_REAL_DELAY_MS") ? atoi(getenv("PTG_REAL_DELAY_MS")) : 2000));
     if (kind == PE_COMPLETE_CB) printf("%10.1f rank %d COMPLETION CALLBACK of taskpool slot %ld\n", now() - T0, rank, a);
     if (kind == PE_ACTION_END && (b == PA_CTXWAIT || b == PA_TPWAIT)) printf("%10.1f rank %d %s returned (action %ld)\n", now() - T0, rank, b == PA_CTXWAIT ? "parsec_context_wait" : "parsec_taskpool_wait", a);
     fflush(stdout);
